@@ -128,8 +128,10 @@ Inductive ppc :=
 | PErrChk                              (* Receive failed: state >= disconnecting? *)
 | PConnack (sp : bool) (rc : N)
 | PConnackCancel (sp : bool) (rc : N)  (* connectFuture.Cancel(connack) after die *)
-| PAll
-| PResend (l : list packet)
+| PAll (sp : bool)                              (* accepted CONNACK, state Connacked: AllPackets(Outgoing) is next *)
+| PResend (sp : bool) (l : list packet)         (* l still has to be re-sent; the client is not Connected yet *)
+| PConnDone (sp : bool) (d : option bool)       (* complete the connect future; None: after Connacked -> Connected,
+                                                   Some close: then die(err, close) (listing / re-send failed) *)
 | PAckDel (p : packet)                 (* SUBACK/UNSUBACK/PUBACK/PUBCOMP: DeletePacket(Outgoing, id) *)
 | PAckFut (p : packet)                 (* ... then the future *)
 | PPubCb (p : packet)
@@ -436,10 +438,18 @@ Definition proc_hidden (s : st) : option st :=
   | PConnack sp rc =>
     if negb (cst_n (k_cs (k s)) =? 1) then Some (set_ppc s (PRecv false))
     else if negb (rc =? 0) then Some (die_proc (set_cs s StConnacked) true (PConnackCancel sp rc))
-    else
-      let s1 := set_cs s StConnected in
-      let s2 := match t_connfut (t s1) with Some c => fut_complete s1 c (VConnack sp rc) | None => s1 end in
-      Some (set_ppc s2 PAll)
+    else Some (set_ppc (set_cs s StConnacked) (PAll sp))
+  | PConnDone sp d =>
+    (* only after the last re-send: Connacked -> Connected (compare-and-swap), and the connect future completes *)
+    let s1 := match d with
+              | None => if cst_n (k_cs (k s)) =? 2 then set_cs s StConnected else s
+              | Some _ => s
+              end in
+    let s2 := match t_connfut (t s1) with Some c => fut_complete s1 c (VConnack sp 0) | None => s1 end in
+    match d with
+    | None => Some (set_ppc s2 (PRecv false))
+    | Some close => Some (die_proc s2 close (PRecv false))
+    end
   | PConnackCancel sp rc =>
     let s1 := match t_connfut (t s) with Some c => fut_cancel s c (VConnack sp rc) | None => s end in
     Some (set_ppc s1 (PRecv false))     (* the loop ignores processConnack's error and goes on to Receive *)
@@ -587,12 +597,12 @@ Definition step_tx (s : st) (p : packet) (async : bool) (r : res) : option st :=
       | Fail => Some (die_proc s' false PExited)
       end in
     match k_ppc (k s), p with
-    | PResend (q :: rest), _ =>
+    | PResend sp (q :: rest), _ =>
       if packet_eqb p (set_dup q) then
         let s' := set_sess s' (sess_with (sess s') Outgoing (store_setdup (s_out (sess s')) q)) in
         match r with
-        | Ok => Some (set_ppc s' (match rest with [] => PRecv false | _ => PResend rest end))
-        | Fail => Some (die_proc s' false (PRecv false))
+        | Ok => Some (set_ppc s' (match rest with [] => PConnDone sp None | _ => PResend sp rest end))
+        | Fail => Some (set_ppc s' (PConnDone sp (Some false)))
         end
       else None
     | PPubAck id, Puback id' => if id =? id' then cont (PRecv false) else None
@@ -796,12 +806,12 @@ Definition step (s : st) (e : event) : option st :=
     end
   | EAll d r =>
     match d, k_ppc (k s) with
-    | Outgoing, PAll =>
+    | Outgoing, PAll sp =>
       match r with
-      | None => Some (die_proc s true (PRecv false))
+      | None => Some (set_ppc s (PConnDone sp (Some true)))
       | Some l =>
         if list_eqb packet_eqb l (store_all (s_out (sess s)))
-        then Some (set_ppc s (match l with [] => PRecv false | _ => PResend l end))
+        then Some (set_ppc s (match l with [] => PConnDone sp None | _ => PResend sp l end))
         else None
       end
     | _, _ => None
